@@ -38,6 +38,8 @@
 (define-fun issuedReq ((r (Array Key Bytes)) (t Int) (h Int) (id Bytes) (c RequestContext) (cnt Int) (p Bytes)) CompactRequest
   (mkCompactRequest id cnt p (ite (RequestContext_SuperMode c) noCoins (priceCoins r t (RequestContext_Consumer c) (RequestContext_ServiceName c) p))
      h (wrap_i64 (+ h (RequestContext_Timeout c)))))
+; x is one of the first n request ids of batch cnt of context id issued at height h
+(define-fun issuedIn ((x Bytes) (id Bytes) (cnt Int) (h Int) (n Int)) Bool (and (= x (mkRID id cnt h (ridIndex x))) (<= 0 (ridIndex x)) (< (ridIndex x) n)))
 (declare-fun issueIt ((Array Key Bytes) Int Int Bytes RequestContext Int (Slice Bytes) Int) (Array Key Bytes))
 (assert (forall ((r (Array Key Bytes)) (t Int) (h Int) (id Bytes) (c RequestContext) (cnt Int) (ps (Slice Bytes)))
   (! (= (issueIt r t h id c cnt ps 0) r) :pattern ((issueIt r t h id c cnt ps 0)))))
